@@ -357,8 +357,25 @@ class Gen:
 
     def let_form(self, ty, d, env):
         r = self.rng
-        kind = r.choice(["let", "let", "let*", "letrec-fn", "shadow"])
+        kind = r.choice(["let", "let", "let*", "letrec-fn", "shadow", "alias-assign"])
         n = r.randint(1, 3)
+        ints = self.vars_of(env, "int")
+        if kind == "alias-assign" and ints:
+            # a variable initialised from another variable and then assigned: two distinct locations
+            src = r.choice(ints)
+            x = self.fresh("al")
+            env2 = dict(env)
+            env2[x] = "int"
+            self.stat("alias-assign")
+            assign = ("set", x, self.safe_expr("int", 1, env2))
+            tail = self.expr(ty, d - 1, env2)
+            if r.random() < 0.5:
+                # the assignment happens inside a closure that is called
+                k = self.fresh("k")
+                return ("let", [(x, V(src))], [("let", [(k, ("lam", [], None, [assign]))], [A(k), A("display", A("list", V(x), V(src))), tail])])
+            return ("let", [(x, V(src))], [assign, A("display", A("list", V(x), V(src))), tail])
+        if kind == "alias-assign":
+            kind = "let"
         if kind == "shadow" and env:
             # rebind an existing name (possibly at another type)
             x = r.choice(list(env))
@@ -704,6 +721,25 @@ class Gen:
             lam = ("lam", [n_] + ps, None, [("if", A(">", V(n_), I(12)), I(0), body)])
             self.funcs[f] = (["int"] + ats, rt, False)
             return ("define", f, lam)
+        if 0.55 < kind <= 0.75 and rt == "int" and r.random() < 0.6:
+            # self tail call of a function with a rest parameter, with an operand count that differs from
+            # the number of formals (fewer: the rest list becomes empty; more: surplus operands are collected)
+            self.stat("variadic-self-tail-call")
+            n_ = self.fresh("n")
+            rs = self.fresh("rest")
+            fixed = [n_] + ps[:r.randint(0, min(2, len(ps)))]
+            ftys = ["int"] + ats[:len(fixed) - 1]
+            envb = dict(self.globals)
+            envb.update(dict(zip(fixed, ftys)))
+            envb[rs] = "ilist"
+            k = r.choice([0, 0, 1, 2, 3])          # surplus operands of the self call
+            ops = [A("-", V(n_), I(1))] + [self.safe_expr(t, 1, envb) for t in ftys[1:]] + \
+                  [self.safe_expr("int", 1, envb) for _ in range(k)]
+            done = A("+", A("apply", V("+"), V(rs)), A("*", I(100), A("length", V(rs))), self.safe_expr("int", 1, envb))
+            body = ("if", A("<=", V(n_), I(0)), done, A(f, *ops))
+            lam = ("lam", fixed, rs, [("if", A(">", V(n_), I(12)), I(0), body)])
+            self.funcs[f] = (ftys, "int", True)
+            return ("define", f, lam)
         if r.random() < 0.3:
             # a parameter that is captured and mutated by an inner closure
             self.stat("mutated-capture")
@@ -957,6 +993,16 @@ CORPUS = [
                                            _app(_v("g"), _app(_v("-"), _v("a"), _i(1))))])), _app(_v("g"), _i(2))],
     [("define", "h", ("lam", ["a"], None, [("handler", ("lam", ["e"], None, [_v("a")]), [_app(_v("car"), ("quote", ("dlist", [])))])])),
      _app(_v("h"), _i(10)), _app(_v("h"), _i(11))],
+    # F41: a let variable initialised from a parameter and then assigned was replaced by the parameter
+    [("define", "g", ("lam", ["a"], None, [("let", [("s", _v("a"))], [("set", "s", _i(5)), _app(_v("list"), _v("s"), _v("a"))])])),
+     _app(_v("g"), _i(2))],
+    [("define", "g3", ("lam", ["a"], None, [("let*", [("s", _v("a")), ("t", _v("s"))],
+                                            [("set", "t", _i(7)), _app(_v("list"), _v("s"), _v("t"), _v("a"))])])), _app(_v("g3"), _i(1))],
+    [("define", "k", ("lam", ["a"], None, [("let", [("h", ("lam", ["p"], None, [("let", [("s", _v("a"))],
+        [_app(_v("+"), ("set", "s", _v("a")), _v("s"))])]))], [_app(_v("h"), _i(1))])])), _app(_v("k"), _i(2))],
+    # F42: arity error while native code enters another closure
+    [("let", [("h", ("lam", ["p"], None, [("app", ("lam", ["q"], None, [_v("q")]),
+        [("let", [("af", ("lam", ["x"], None, [_v("x")]))], [_app(_v("af"))])])]))], [_app(_v("+"), _app(_v("h"), _i(2)), _app(_v("h"), _i(1)))])],
     # F29 / F38: operand counts the native tier has no helper for
     [("define", "c9", ("lam", ["f"], None, [_app(_v("f"), *[_i(k) for k in range(1, 10)])])), _app(_v("c9"), _v("+"))],
     [("define", "s5", ("lam", ["a"], None, [_app(_v("-"), _v("a"), _i(1), _i(2), _i(3), _i(4))])), _app(_v("s5"), _i(20)), _app(_v("s5"), _i(21))],
